@@ -131,6 +131,24 @@ pub fn cmd_ciphers(args: &[String]) -> i32 {
                 }
             }
         }
+        // the same BYTE length as the name, with a two- / three-byte character straddling each byte offset in turn (an implementation that
+        // slices names at byte offsets meets a character boundary problem at exactly one of them)
+        {
+            let bytes = n.as_bytes();
+            let step = if k % 8 == 0 { 1 } else { 5 };
+            let mut p0 = (k % step) + 4;
+            while p0 + 2 <= bytes.len() {
+                let mut v = bytes.to_vec();
+                v.splice(p0..p0 + 2, "\u{c9}".bytes());
+                if let Ok(t) = String::from_utf8(v) { qs.push(t); }
+                if p0 + 3 <= bytes.len() {
+                    let mut w = bytes.to_vec();
+                    w.splice(p0..p0 + 3, "\u{20ac}".bytes());
+                    if let Ok(t) = String::from_utf8(w) { qs.push(t); }
+                }
+                p0 += step;
+            }
+        }
         // prefixes and tokens repeated or stripped
         qs.push(format!("TLS_{}", n));
         qs.push(format!("TLS_TLS_{}", n));
@@ -148,8 +166,9 @@ pub fn cmd_ciphers(args: &[String]) -> i32 {
     qs.sort();
     qs.dedup();
     for s in &qs {
-        let a = TlsCipherSuite::from_name(s).map(|c| format!("{:04x}", c.id.0)).unwrap_or_else(|| "none".into());
-        let b = <&TlsCipherSuite>::try_from(s.as_str()).ok().map(|c| format!("{:04x}", c.id.0)).unwrap_or_else(|| "none".into());
+        // (a lookup that panics answers "panic": an answer like any other, and not the registry's)
+        let a = crate::observe::guarded(|| TlsCipherSuite::from_name(s).map(|c| format!("{:04x}", c.id.0)).unwrap_or_else(|| "none".into())).unwrap_or_else(|_| "panic".into());
+        let b = crate::observe::guarded(|| <&TlsCipherSuite>::try_from(s.as_str()).ok().map(|c| format!("{:04x}", c.id.0)).unwrap_or_else(|| "none".into())).unwrap_or_else(|_| "panic".into());
         writeln!(out, "{}", json!({"kind": "name", "s": s, "from_name": a, "try_from": b})).unwrap();
     }
     // the answer depends on the characters, not on where they live: prefixes and suffixes BORROWED from the registry's own
